@@ -183,7 +183,7 @@ def run(ctx: common.Ctx):
     else:
         jobs += [("argsort", "int8", 5, 300), ("argsort", "uint8", 6, 300), ("sort", "int16", 7, 300)]
     res = tables.pmap(worker, jobs, chunk=6)
-    for job, r in zip(jobs, res):
+    for job, r in tables.pairs(ctx, jobs, res):
         if isinstance(r, tables.Crashed):
             ctx.violation(f"{job[0]}/{job[1]}/interpreter-crash", f"{job}: worker died", {"job": repr(job)})
             continue
